@@ -791,14 +791,12 @@ func c17EmptyGraph(c *Ctx) {
 		found = true
 		param := fn.Params[0]
 		unchecked, sliceCase := 0, false
-		for _, ref := range nonDebugRefs(param) {
-			if ta, ok := ref.(*ssa.TypeAssert); ok {
-				if !ta.CommaOk {
-					unchecked++
-				}
-				if _, isSlice := ta.AssertedType.Underlying().(*types.Slice); isSlice {
-					sliceCase = true
-				}
+		for _, ta := range typeAssertsOnForwarded(fn, param, 0) {
+			if !ta.CommaOk {
+				unchecked++
+			}
+			if _, isSlice := ta.AssertedType.Underlying().(*types.Slice); isSlice {
+				sliceCase = true
 			}
 		}
 		k := FuncKey(fn) + "#document-shape"
